@@ -542,6 +542,25 @@ impl UndoLayerChange {
     }
 }
 
+/// Writes the snapshot back over its rectangle only: cells outside of it, and all cells a smaller layer size hides
+/// (the snapshot could not see them), stay as they are; a hidden or locked layer is restored too.
+fn restore_area(layer: &mut Layer, pos: Position, chars: &Layer) {
+    for y in 0..chars.get_height() {
+        let line_y = pos.y + y;
+        if line_y < 0 || line_y >= layer.get_height() {
+            continue;
+        }
+        if line_y as usize >= layer.lines.len() {
+            layer.lines.resize(line_y as usize + 1, Line::new());
+        }
+        for x in 0..chars.get_width() {
+            if pos.x + x >= 0 && pos.x + x < layer.get_width() {
+                layer.lines[line_y as usize].set_char(pos.x + x, chars.get_char((x, y)));
+            }
+        }
+    }
+}
+
 impl UndoOperation for UndoLayerChange {
     fn get_description(&self) -> String {
         String::new() // No stand alone operation.
@@ -549,11 +568,7 @@ impl UndoOperation for UndoLayerChange {
 
     fn undo(&mut self, edit_state: &mut EditState) -> EngineResult<()> {
         if let Some(layer) = edit_state.buffer.layers.get_mut(self.layer) {
-            if layer.get_size() == self.old_chars.get_size() {
-                layer.lines = self.old_chars.lines.clone();
-            } else {
-                layer.stamp(self.pos, &self.old_chars);
-            }
+            restore_area(layer, self.pos, &self.old_chars);
             Ok(())
         } else {
             Err(EditorError::InvalidLayer(self.layer).into())
@@ -562,11 +577,7 @@ impl UndoOperation for UndoLayerChange {
 
     fn redo(&mut self, edit_state: &mut EditState) -> EngineResult<()> {
         if let Some(layer) = edit_state.buffer.layers.get_mut(self.layer) {
-            if layer.get_size() == self.new_chars.get_size() {
-                layer.lines = self.new_chars.lines.clone();
-            } else {
-                layer.stamp(self.pos, &self.new_chars);
-            }
+            restore_area(layer, self.pos, &self.new_chars);
             Ok(())
         } else {
             Err(EditorError::InvalidLayer(self.layer).into())
